@@ -7,10 +7,10 @@ LatticeBuildImpl / AStarImpl are model-checked exhaustively (see model_check).
 """
 import json, os, random, re
 from vlib import sut, tlc, tracecheck, runner
-from checks import decmatrix
+from checks import decmatrix, synhist
 
 SPEC = os.path.join(sut.VERIF, "specs", "lattice")
-KEEP = {"Header", "Grammar", "Start", "Feed", "End", "Result", "Lattice", "NBest"}
+KEEP = {"Header", "Grammar", "Start", "Feed", "End", "Result", "Lattice", "NBest", "SynHist"}
 
 
 def model_check(ctx, which, quick):
@@ -156,6 +156,10 @@ def run_which(ctx, which):
         model_check(ctx, which, quick)
         n = 120 if quick else 1500
         cases = [decmatrix.make_case(rng, ctx, i, want) for i in range(n)]
+        # lattices built by the unchanged code from every history table the abstract search reaches
+        q = (lambda tag: ["result " + tag, "lattice %s 0" % tag]) if which == "C11" else \
+            (lambda tag: ["result " + tag, "lattice %s 1" % tag, "nbest %s 30" % tag])
+        cases += synhist.cases(ctx, rng, quick, q, n + 500, count=1500 if quick else None)
         if which == "C12":
             cases += deep_nbest_cases(rng, 3 if quick else 20, n)
             cases += synthetic_dag_cases(ctx, rng, quick, n + 100)
